@@ -150,6 +150,59 @@ def run(rep, tier, seed, budget):
             continue
         res = driver.explore_parallel(level(n, ALPHA_N), left * 0.8)
         rep.add_part(name, res, {"alphabet": ALPHA_N, "N_symbols": n, "table": "keys %s free in 0..9" % R_KEYS})
+    # (iii) a rejected update must leave alphabet and translation on the table in force
+    BAD = [{"?": 3, "Fe+0": 2}, {"C": 4, "?": 3, "O": -1}, {"C": 2}, {"?": 3, "C": 2.5}, {"Xx": 1, "?": 2}, {"?": 3, "N": 2, "C+": 1}]
+
+    def rej_path(eng, col):
+        ctx.reset()
+        A = {"C": fresh_int("aC", 0, 4), "N": fresh_int("aN", 0, 4), "O": 2, "?": fresh_int("aq", 0, 3)}
+        bi = int(fresh_int("bad", 0, len(BAD) - 1))
+        bc.set_semantic_constraints(dict(A))
+        try:
+            bc.set_semantic_constraints(dict(BAD[bi]))
+            accepted = True
+        except ValueError:
+            accepted = False
+        toks = make_tokens("t", 2, ["[C]", "[=C]", "[N]", "[#N]", "[=O]", "[Branch1]", "[Ring1]", "[S]"])
+        for t in toks:
+            for i, s_ in enumerate(t.vals):
+                if s_ in FIXED:
+                    continue
+                if s_[-2] in "CNO":
+                    eng.assume(z3.Implies(t.e == i, zint(A[s_[-2]]) >= BONDS[s_[1:-2]]))
+        alpha = set(str(a) for a in bc.get_semantic_robust_alphabet())
+        bads = []
+        hard = accepted
+        for k in ("C", "N", "O"):
+            for b, o in BONDS.items():
+                sym = "[%s%s]" % (b, k)
+                if sym in FIXED:
+                    continue
+                bads.append((zint(A[k]) < o) if sym in alpha else (zint(A[k]) >= o))
+        if (alpha - FIXED) - {"[%s%s]" % (b, k) for k in ("C", "N", "O") for b in BONDS}:
+            hard = True
+        r = dech.run_decoder(ctx, TokStr(toks))
+        if r[0] != "ok":
+            hard = True
+        else:
+            out = str(r[1])
+            faults, vb, mol = dech.valence_bads(out, A)
+            bads += vb
+            if faults:
+                hard = True
+            col.nontrivial((bi, out))
+            col.sample({"rejected_table": BAD[bi], "output": out})
+        m = eng.current_model() if hard else eng.find_model(bads)
+        if m is not None:
+            col.candidate({"prop": "C07", "kind": "robust_after_reject", "table": table_model(m, A), "bad": BAD[bi],
+                           "selfies": dech.concrete_selfies(m, toks)})
+
+    left = t_end - time.time()
+    if left > 4:
+        res = driver.explore_parallel(rej_path, min(30, left * 0.8))
+        rep.add_part("iii: accepted table A (free), then a rejected update: alphabet and 2-symbol strings still follow A", res,
+                     {"rejected_tables": BAD, "A": "C, N, ? free; O = 2"})
+
     rep.assumptions += ["part i goes through the real set_semantic_constraints (validation included); the key is concretised (one path per key spelling), values stay symbolic",
                         "part ii installs the table directly and assumes every token is in the robust alphabet of the table: index symbols unconditionally, other atom symbols iff order <= capacity",
                         "'reflects the table in force at the time of the call' is decided by C11's histories"]
